@@ -154,7 +154,9 @@ func runC12(x *vt.Ctx, c FaultCase) *vt.Finding {
 	}
 	defer w.Close()
 	for _, op := range c.Prep {
-		runOp(w, op)
+		if out := runOp(w, op); !out.Closed {
+			return vt.Failf("op="+op.Kind+":stream-not-closed fault=nofault", "fault-free %s of the prefix: result stream did not close: %s", op.Kind, jsonStr(op))
+		}
 		settle(w)
 	}
 	d := *c.Op.Deploy
@@ -243,6 +245,6 @@ func runC12(x *vt.Ctx, c FaultCase) *vt.Finding {
 	return nil
 }
 
-var propC12 = vt.Prop[FaultCase]{ID: "C12", Test: "TestC12", Gen: genC12, Run: runC12}
+var propC12 = vt.Prop[FaultCase]{ID: "C12", Test: "TestC12", Gen: genC12, Run: runC12, Retry: timeoutFinding}
 
 func TestC12(t *testing.T) { topT = t; propC12.Check(t) }
